@@ -243,7 +243,18 @@ where
         successor
     }
 
-    pub fn prev(&mut self, key: &K) -> Option<(&K, &V)> {
+    pub fn prev(&mut self, key: &K) -> /*@ (res: @*/ Option<(&K, &V)> /*@ ) @*/
+    //@ requires old(self).wf(),
+    //@ ensures
+    //@     final(self).view() == old(self).view(), final(self).count() == old(self).count(),
+    //@     final(self).cmp() == old(self).cmp(),
+    //@     match res {
+    //@         Some(kv) => exists|i: int| #[trigger] pred_at(old(self).cmp(), old(self).view(), *key, i) && old(self).view()[i] == (*kv.0, *kv.1),
+    //@         None => no_pred(old(self).cmp(), old(self).view(), *key),
+    //@     },
+    {
+        //@ let ghost c = self.comparator;
+        //@ let ghost s = inorder(self.root);
         // Splay trees are self-modifying, which is the cause of this ugly mess
         let mut node: &Node<K, V> = match (&mut self.root) {
             Some(ref mut root) => {
@@ -254,17 +265,54 @@ where
         };
 
         let mut predecessor: Option<(&K, &V)> = None;
+        //@ let ghost mut pre: Seq<(K, V)> = Seq::empty();
+        //@ let ghost mut post: Seq<(K, V)> = Seq::empty();
+        //@ proof { assert(s =~= pre + nseq(*node) + post); }
 
         loop
+            //@ invariant_except_break
+            //@     match predecessor { Some(kv) => pre.len() > 0 && pre[pre.len() - 1] == (*kv.0, *kv.1), None => pre.len() == 0 },
+            //@ invariant
+            //@     cmp_ok(c), c == self.comparator, sorted(c, s),
+            //@     s == pre + nseq(*node) + post,
+            //@     all_lt(c, pre, *key), no_pred(c, post, *key),
+            //@ ensures
+            //@     ord(c, *key, node.key) == Ordering::Greater ==> node.right.is_none() && predecessor == Some((&node.key, &node.value)),
+            //@     ord(c, *key, node.key) != Ordering::Greater ==> node.left.is_none()
+            //@         && match predecessor { Some(kv) => pre.len() > 0 && pre[pre.len() - 1] == (*kv.0, *kv.1), None => pre.len() == 0 },
             //@ decreases nseq(*node).len()
         {
+            //@ proof { lemma_sorted_sub(c, pre, nseq(*node), post); }
             match (self.comparator)(key, &node.key) {
-                Ordering::Equal | Ordering::Less => match node.left {
+                Ordering::Equal | Ordering::Less => /*@ { proof {
+                        if node.left.is_some() {
+                            let m = seq![(node.key, node.value)] + inorder(node.right);
+                            assert(nseq(*node) =~= inorder(node.left) + m);
+                            lemma_suffix_not_below(c, *node, *key);
+                            lemma_no_cat(c, m, post, *key);
+                            assert(s =~= pre + inorder(node.left) + (m + post));
+                            assert(inorder(node.left) =~= nseq(*node.left.unwrap()));
+                            post = m + post;
+                        }
+                    } @*/ match node.left {
                     Some(ref left) => node = left,
                     None => break,
-                },
+                } /*@ } @*/,
                 Ordering::Greater => {
                     predecessor = Some((&node.key, &node.value));
+                    //@ proof {
+                    //@     if node.right.is_some() {
+                    //@         let m = inorder(node.left) + seq![(node.key, node.value)];
+                    //@         assert(nseq(*node) =~= m + inorder(node.right));
+                    //@         lemma_sorted_2(c, m, inorder(node.right));
+                    //@         assert(m[m.len() - 1] == (node.key, node.value));
+                    //@         lemma_all_lt_from_last(c, m, *key);
+                    //@         lemma_all_cat(c, pre, m, *key);
+                    //@         assert(s =~= (pre + m) + inorder(node.right) + post);
+                    //@         assert(inorder(node.right) =~= nseq(*node.right.unwrap()));
+                    //@         pre = pre + m;
+                    //@     }
+                    //@ }
                     match node.right {
                         Some(ref right) => node = right,
                         None => break,
@@ -272,38 +320,129 @@ where
                 }
             }
         }
+        //@ proof {
+        //@     lemma_sorted_sub(c, pre, nseq(*node), post);
+        //@     if ord(c, *key, node.key) == Ordering::Greater {
+        //@         let m = inorder(node.left) + seq![(node.key, node.value)];
+        //@         assert(nseq(*node) =~= m);
+        //@         let i = (pre + inorder(node.left)).len() as int;
+        //@         assert(s =~= (pre + inorder(node.left)) + seq![(node.key, node.value)] + post);
+        //@         assert(s[i] == (node.key, node.value));
+        //@         assert forall|j: int| i < j < s.len() implies ord(c, *key, #[trigger] s[j].0) != Ordering::Greater by { assert(s[j] == post[j - i - 1]); }
+        //@         assert(pred_at(c, s, *key, i));
+        //@     } else {
+        //@         let m = seq![(node.key, node.value)] + inorder(node.right);
+        //@         assert(nseq(*node) =~= m);
+        //@         lemma_suffix_not_below(c, *node, *key);
+        //@         lemma_no_cat(c, m, post, *key);
+        //@         assert(s =~= pre + (m + post));
+        //@         if pre.len() > 0 {
+        //@             let i = pre.len() - 1;
+        //@             assert(s[i] == pre[i]);
+        //@             assert forall|j: int| i < j < s.len() implies ord(c, *key, #[trigger] s[j].0) != Ordering::Greater by { assert(s[j] == (m + post)[j - i - 1]); }
+        //@             assert(pred_at(c, s, *key, i));
+        //@         } else {
+        //@             assert(s =~= m + post);
+        //@         }
+        //@     }
+        //@ }
 
         predecessor
     }
 
-    pub fn insert(&mut self, key: K, value: V) -> Option<V> {
+    pub fn insert(&mut self, key: K, value: V) -> /*@ (res: @*/ Option<V> /*@ ) @*/
+    //@ requires old(self).wf(), old(self).count() < usize::MAX,
+    //@ ensures
+    //@     final(self).wf(), final(self).cmp() == old(self).cmp(),
+    //@     match res {
+    //@         // key present: the stored key is kept, its value replaced, the old value handed back
+    //@         Some(ov) => exists|i: int| #[trigger] eq_at(old(self).cmp(), old(self).view(), key, i) && ov == old(self).view()[i].1
+    //@                     && final(self).view() == old(self).view().update(i, (old(self).view()[i].0, value))
+    //@                     && final(self).count() == old(self).count(),
+    //@         // key absent: (key, value) is spliced in (wf says: at its sorted position), everything else untouched
+    //@         None => no_eq(old(self).cmp(), old(self).view(), key)
+    //@                     && (exists|p: int| 0 <= p <= old(self).view().len() && final(self).view() == #[trigger] seq_ins(old(self).view(), p, (key, value)))
+    //@                     && final(self).count() == old(self).count() + 1,
+    //@     },
+    {
+        //@ let ghost c = self.comparator;
+        //@ let ghost s = inorder(self.root);
+        //@ let ghost k = key;
+        //@ let ghost v = value;
+        //@ let ghost mut p: int = 0;
         match (&mut self.root) {
             Some(ref mut root) => {
                 splay(&key, root, &self.comparator);
+                //@ let ghost n = **root;
+                //@ let ghost l = inorder(n.left);
+                //@ let ghost r = inorder(n.right);
+                //@ proof {
+                //@     lemma_root_lookup(c, n, k);
+                //@     assert(s =~= l + seq![(n.key, n.value)] + r);
+                //@     p = l.len() as int;
+                //@ }
 
                 match (self.comparator)(&key, &root.key) {
                     Ordering::Equal => {
                         let old = mem::replace(&mut root.value, value);
+                        //@ proof {
+                        //@     assert(eq_at(c, s, k, p));
+                        //@     assert(nseq(**root) =~= s.update(p, (s[p].0, v)));
+                        //@     lemma_sorted_same_keys(c, s, nseq(**root));
+                        //@ }
                         return Some(old);
                     }
                     Ordering::Less => {
                         let left = root.pop_left();
                         let new = Node::new_boxed(key, value, left, None);
                         let prev = mem::replace(root, new);
+                        //@ proof { assert(inorder(Some(prev)) =~= seq![(n.key, n.value)] + r); }
                         root.right = Some(prev);
+                        //@ proof {
+                        //@     let b = seq![(n.key, n.value)] + r;
+                        //@     assert(nseq(**root) =~= l + seq![(k, v)] + b);
+                        //@     assert(s =~= l + b);
+                        //@     assert(all_gt(c, seq![(n.key, n.value)], k));
+                        //@     lemma_all_cat(c, seq![(n.key, n.value)], r, k);
+                        //@     lemma_sorted_insert(c, l, (k, v), b);
+                        //@     assert(s.subrange(0, p) =~= l);
+                        //@     assert(s.subrange(p, s.len() as int) =~= b);
+                        //@ }
                     }
                     Ordering::Greater => {
                         let right = root.pop_right();
                         let new = Node::new_boxed(key, value, None, right);
                         let prev = mem::replace(root, new);
+                        //@ proof { assert(inorder(prev.right) =~= Seq::<(K, V)>::empty()); assert(inorder(Some(prev)) =~= l + seq![(n.key, n.value)]); }
                         root.left = Some(prev);
+                        //@ proof {
+                        //@     let a = l + seq![(n.key, n.value)];
+                        //@     assert(nseq(**root) =~= a + seq![(k, v)] + r);
+                        //@     assert(s =~= a + r);
+                        //@     assert(all_lt(c, seq![(n.key, n.value)], k));
+                        //@     lemma_all_cat(c, l, seq![(n.key, n.value)], k);
+                        //@     lemma_sorted_insert(c, a, (k, v), r);
+                        //@     p = a.len() as int;
+                        //@     assert(s.subrange(0, p) =~= a);
+                        //@     assert(s.subrange(p, s.len() as int) =~= r);
+                        //@ }
                     }
                 }
             }
             slot => {
                 *slot = Some(Node::new_boxed(key, value, None, None));
+                //@ proof {
+                //@     p = 0;
+                //@     assert(s =~= Seq::<(K, V)>::empty());
+                //@     assert(inorder(*slot) =~= seq![(k, v)]);
+                //@     assert(seq_ins(s, 0, (k, v)) =~= seq![(k, v)]);
+                //@ }
             }
         }
+        //@ proof {
+        //@     assert(inorder(self.root) =~= seq_ins(s, p, (k, v)));
+        //@     assert(inorder(self.root).len() == s.len() + 1);
+        //@ }
         self.size += 1;
         None
     }
